@@ -986,6 +986,13 @@ theorem stepState_good {db : Db} {g : Guard} {ss : Session} (hss : SInv db ss) (
   | new div a b =>
     simp only [stepState] at h
     exact binary_good hss a b _ (fun s hs i j s' r hr => opNew_good hs div i j hr) h
+  | reinit q a cap =>
+    simp only [stepState] at h
+    split at h
+    · simp only [Prod.mk.injEq] at h; obtain ⟨rfl, rfl⟩ := h; exact skip
+    · rename_i i hi
+      simp only [Prod.mk.injEq] at h; obtain ⟨rfl, rfl⟩ := h
+      exact GoodO.same hss.inv (fun j hj => by cases hj; exact hss.results q i hi)
 
 theorem resolve_append {results : List (Option Nat)} {x : Option Nat} {r i : Nat}
     (h : resolve (results ++ [x]) r = some i) : resolve results r = some i ∨ x = some i := by
